@@ -967,7 +967,16 @@ func enumPaths(fn *ssa.Function, target func(*ssa.Return) bool, limit int) (path
 		for _, sx := range feas {
 			next := conds
 			if iff, ok := last.(*ssa.If); ok && len(b.Succs) == 2 {
-				next = append(append([]condEdge{}, conds...), condEdge{cond: iff.Cond, taken: sx == b.Succs[0], ifIn: iff})
+				cond := iff.Cond
+				// a condition merged in this very block (`a && b` evaluated as a value): on this path it is what came in
+				if phi, isPhi := cond.(*ssa.Phi); isPhi && phi.Block() == b && pred != nil {
+					for i, q := range b.Preds {
+						if q == pred && i < len(phi.Edges) {
+							cond = phi.Edges[i]
+						}
+					}
+				}
+				next = append(append([]condEdge{}, conds...), condEdge{cond: cond, taken: sx == b.Succs[0], ifIn: iff})
 			}
 			walk(b, sx, next)
 		}
